@@ -19,6 +19,7 @@ from concurrent.futures import ThreadPoolExecutor
 
 from lib import common as C
 from checks import c03
+from translators import c04_taskstart
 
 MODES = {1: "SIGKILL", 2: "SIGSEGV", 3: "abort", 4: "_exit", 5: "execv", 6: "finish-trigger", 7: "exit"}
 FLUSHING = (2, 3, 5, 6, 7)     # the thread's open calls are flushed before it goes
@@ -522,204 +523,206 @@ def check_exec_run(ctx, exe, datadir, slots, scen, post_kill, err):
     return bad, nrec
 
 
-def shm_leftovers(datadir, remove=True):
-    """session ids of the run -> files left in /dev/shm (removed: a cluttered /dev/shm slows everything down)"""
-    left = []
-    try:
-        txt = open(os.path.join(datadir, "task.txt")).read()
-    except OSError:
-        return left
-    for sid in set(re.findall(r"sid=([0-9a-f]{16})", txt)):
-        for f in glob.glob("/dev/shm/uftrace-%s-*" % sid):
-            left.append(f)
-            if remove:
-                try:
-                    os.unlink(f)
-                except OSError:
-                    pass
-    return left
+shm_leftovers = c03.shm_leftovers
 
 
-def run(ctx):
-    ok, problems = C.prove(ctx, "C04")
-    if not ok:
-        C.violation(ctx, "proof", {"kind": "proof-obligation-broken", "problems": problems}, True)
-        return C.finish(ctx)
+def _run(ctx):
     ctx.snapshot()
+    # translator tie: the TASK_START test and the shape of its handler, regenerated from cmds/record.c
+    try:
+        changed, info = c04_taskstart.main(ctx.src, ctx.scratch)
+        ctx.notes.append("Gen/TaskStart.lean regenerated from the snapshot (changed=%s): if (%s)" % (
+            changed, info["condition"]))
+    except Exception as e:
+        C.violation(ctx, "translator", {"kind": "translator-failed", "error": str(e),
+                                        "theorem": "c04_taskstart_shape / c04_exec_flush_order"}, True)
+        return C.finish(ctx)
+    proof_ok, problems = C.prove(ctx, "C04")
+    if not proof_ok:
+        # e.g. the regenerated TASK_START test no longer satisfies c04_taskstart_matches_by_tid: go on with the e2e
+        # parts (they need no model) to find a concrete failing input
+        C.violation(ctx, "proof", {"kind": "proof-obligation-broken", "problems": problems,
+                                   "generated": "lean/Uft/Gen/TaskStart.lean"}, True)
     make_job = c03.start_make(ctx)
     known = {f["id"]: f for f in C.known_findings("C04")}
 
-    # ---- (a) H1: stop + shutdown schedules ---------------------------------------------------------
-    exe, log = c03.build_h1(ctx, out="h1c04")
-    if not exe:
-        C.violation(ctx, "build", {"kind": "harness-build-failed", "log": log[-3000:]}, True)
-        return C.finish(ctx)
-    ncase = 40 if ctx.tier == "quick" else 700
-    cases = []
-    for i in range(ncase):
-        rng = ctx.rng
-        cases.append(KillGen(rng, rng.choice([1, 2, 2, 3]), rng.randint(1, 3), rng.choice([48, 64, 96, 160, 496]),
-                             rng.randint(8, 70), rng.choice([0, 0, 0.15]), rng.choice([[0], [0, 0, 8, 16], [0, 24]]),
-                             rng.choice(["kill", "kill", "mixed", "ftrig"])))
-    res = c03.run_h1_cases(ctx, exe, cases, model_name="C04")
-    ctx.notes.append("t(h1 schedules)=%.1fs" % ctx.elapsed())
-    nsteps = sum(len(d["impl"]) for d in res)
-    disagree = monfail = reported = 0
-    distinct = set()
-    hows = {}
-    flushes = 0
-    for ci, d in enumerate(res):
-        g = d["gen"]
-        hows[g.how] = hows.get(g.how, 0) + 1
-        prev_shm = None
-        for (h, _), l in zip(g.ops, d["impl"]):
-            nshm = l.count(".", l.find("SHM=["), l.find("]", l.find("SHM=[")))
-            if h.startswith("R flush") and prev_shm is not None and nshm < prev_shm:
-                flushes += prev_shm - nshm
-            prev_shm = nshm
-        for l in d["impl"]:
-            distinct.add(hash(c03.norm_state(l)))
-        mon = d["monitor"]
-        if not mon and d["impl"]:
-            st = c03.parse_state(c03.norm_state(d["impl"][-1]))
-            if st["PIPE"] or st["SHM"] or st["WL"] or not all(w.startswith("-") for w in st["WR"]):
-                mon = "the shutdown sequence left work behind: PIPE=%s SHM=%s WL=%s WR=%s" % (
-                    st["PIPE"], st["SHM"], st["WL"], st["WR"])
-            else:
-                for k, f in st["files"].items():
-                    bad = c03.monitor_stream(f, g.emitted.get(k, []), True)
-                    if bad:
-                        mon = "after shutdown, thread %d: %s" % (k, bad)
-                        break
-        if d["first_diff"]:
-            disagree += 1
-        if mon:
-            monfail += 1
-        if (d["first_diff"] or mon) and reported < 3:
-            reported += 1
-            fd = d["first_diff"]
-            C.violation(ctx, "h1case%d" % ci, {
-                "kind": "property-violated-on-implementation" if mon else "model-code-disagreement", "what": mon,
-                "config": {"threads": g.nt, "writers": g.nw, "maxsize": g.maxsize, "bufsize": g.maxsize + 16,
-                           "stop": g.how},
-                "harness_script": [o[0] for o in g.ops][: (fd[0] + 1 if fd else len(g.ops))],
-                "model_script": [m for o in g.ops[: (fd[0] + 1 if fd else len(g.ops))] for m in o[1]],
-                "first_difference_at_op": fd[0] if fd else None,
-                "impl_state": fd[1] if fd else None, "model_state": fd[2] if fd else None,
-                "theorem": "c04_crash_prefix / c04_recorder_loop_exits" if mon else
-                           "correspondence Shmem.step (kill, rFlush, rRemaining) vs libmcount + stand-in recorder",
-            }, no_failing_input=not mon)
-
-    # ---- kill at every instruction of one record_trace_data() call (ptrace single-step) ----------------
-    nstep = 10 if ctx.tier == "quick" else 200
-    scases = []
-    for i in range(nstep):
-        rng = ctx.rng
-        pl = [[0], [0, 8, 16], [0, 24], [8, 16, 32]][i % 4]
-        scases.append(StepGen(rng, 1, rng.randint(1, 2), rng.choice([48, 64, 96, 160]), rng.randint(3, 30),
-                              rng.choice([0, 0, 0.2]), pl))
-    sres = c03.run_h1_cases(ctx, exe, scases, model_name="C04", extra_env={"H1C03_INLINE": "1"})
-    ctx.notes.append("t(+single-step)=%.1fs" % ctx.elapsed())
-    steps = {"cases": len(sres), "instructions": 0, "views": 0, "agree_fixed": 0, "agree_prefix_F12": 0, "other": 0}
-    f12_hits = []
-    for ci, d in enumerate(sres):
-        g = d["gen"]
-        last = d["impl"][-1] if d["impl"] else ""
-        m = re.search(r"instructions=(\d+)", last)
-        steps["instructions"] += int(m.group(1)) if m else 0
-        iv = views_of(last)
-        steps["views"] += len(iv)
-        fd = d["first_diff"]
-        if not fd:
-            steps["agree_fixed"] += 1
-            bad = view_problem(iv)
-            if bad:
-                C.violation(ctx, "step%d" % ci, {"kind": "property-violated-on-implementation", "what": bad,
-                                                 "harness_script": [o[0] for o in g.ops], "views": iv,
-                                                 "theorem": "c04_crash_whole_records"})
-            continue
-        # does the implementation match the model of the code before the repair (two size updates)?
-        pre = [ml if not ml.startswith("RESET") else " ".join(ml.split()[:3] + ["0"]) for o in g.ops for ml in o[1]]
-        mpre = c03.run_model("C04", pre)
-        only_last = fd[0] == len(g.ops) - 1 and len(d["impl"]) == len(g.ops)
-        if only_last and c03.norm_state(mpre[-1]) == c03.norm_state(last):
-            steps["agree_prefix_F12"] += 1
-            f12_hits.append({"harness_script": [o[0] for o in g.ops], "views_impl": iv,
-                             "views_model_fixed": views_of(d["model"][-1]), "what": view_problem(iv)})
-        else:
-            steps["other"] += 1
-            C.violation(ctx, "step%d" % ci, {
-                "kind": "model-code-disagreement", "first_difference_at_op": fd[0], "impl_state": fd[1],
-                "model_state": fd[2], "model_prefix_state": c03.norm_state(mpre[fd[0]]) if fd[0] < len(mpre) else None,
-                "harness_script": [o[0] for o in g.ops][:fd[0] + 1],
-                "theorem": "correspondence of the producer micro-steps (Shmem.pWrite/pBump/pEnd/pPick/pStart/pMark)"},
-                True)
-    if f12_hits:
-        what = ("F12: record_ret_stack advances `size` past the header of a record with argument payload before "
-                "the payload is stored; killed between the two stores the thread leaves a header without payload "
-                "and flush_shmem_list copies it into <tid>.dat (%d of %d single-stepped calls; %s); implementation "
-                "matches the pre-fix model (c04_prefix_torn_record_witness)" % (
-                    len(f12_hits), len(sres), f12_hits[0]["what"]))
-        if "F12" in known:
-            C.known(ctx, known["F12"], what)
-        else:
-            C.violation(ctx, "F12-torn-payload-record", {
-                "kind": "property-violated-on-implementation", "finding": "F12", "what": what,
-                "runs": f12_hits[:3], "env": "H1C03_INLINE=1 UFTRACE_BUFFER=<maxsize+16>",
-                "theorem": "c04_crash_whole_records (fixed) / c04_prefix_torn_record_witness (as is)"})
-
-    # ---- the crash handler: SIGABRT at a call depth below / at / beyond --max-stack --------------------
+    res, sres, nsteps, disagree, monfail, flushes = [], [], 0, 0, 0, 0
+    distinct, hows = set(), {}
     segv = {"runs": 0, "agree_fixed": 0, "agree_prefix_F11": 0, "other": 0}
-    maxstack = 8
-    depths = [1, 3, 7, 8, 9, 12, 20] if ctx.tier == "quick" else list(range(1, 26))
-    f11_hits = []
-    for j, (n, sig) in enumerate([(n, s) for n in depths for s in (6, 11)]):
-        o = run_segv(ctx, exe, j, n, sig, maxstack)
-        segv["runs"] += 1
-        # mcount_check_rstack flushed the open frames when the depth first reached max-stack
-        written = [n >= maxstack] * min(n, maxstack)
-        mfix = model_segv(True, maxstack, n, written)
-        mpre = model_segv(False, maxstack, n, written)
-        impl_recs = o["recs"] or []
-        impl = "sig=%d recs=[%s]" % (-o["rc"], " ".join(impl_recs))
+    steps = {"cases": 0, "instructions": 0, "views": 0, "agree_fixed": 0, "agree_prefix_F12": 0, "other": 0}
+    depths, maxstack = [], 8
+    if proof_ok:
+        # ---- (a) H1: stop + shutdown schedules ---------------------------------------------------------
+        exe, log = c03.build_h1(ctx, out="h1c04")
+        if not exe:
+            C.violation(ctx, "build", {"kind": "harness-build-failed", "log": log[-3000:]}, True)
+            return C.finish(ctx)
+        ncase = 40 if ctx.tier == "quick" else 700
+        cases = []
+        for i in range(ncase):
+            rng = ctx.rng
+            cases.append(KillGen(rng, rng.choice([1, 2, 2, 3]), rng.randint(1, 3), rng.choice([48, 64, 96, 160, 496]),
+                                 rng.randint(8, 70), rng.choice([0, 0, 0.15]), rng.choice([[0], [0, 0, 8, 16], [0, 24]]),
+                                 rng.choice(["kill", "kill", "mixed", "ftrig"])))
+        res = c03.run_h1_cases(ctx, exe, cases, model_name="C04")
+        ctx.notes.append("t(h1 schedules)=%.1fs" % ctx.elapsed())
+        nsteps = sum(len(d["impl"]) for d in res)
+        disagree = monfail = reported = 0
+        distinct = set()
+        hows = {}
+        flushes = 0
+        for ci, d in enumerate(res):
+            g = d["gen"]
+            hows[g.how] = hows.get(g.how, 0) + 1
+            prev_shm = None
+            for (h, _), l in zip(g.ops, d["impl"]):
+                nshm = l.count(".", l.find("SHM=["), l.find("]", l.find("SHM=[")))
+                if h.startswith("R flush") and prev_shm is not None and nshm < prev_shm:
+                    flushes += prev_shm - nshm
+                prev_shm = nshm
+            for l in d["impl"]:
+                distinct.add(hash(c03.norm_state(l)))
+            mon = d["monitor"]
+            if not mon and d["impl"]:
+                st = c03.parse_state(c03.norm_state(d["impl"][-1]))
+                if st["PIPE"] or st["SHM"] or st["WL"] or not all(w.startswith("-") for w in st["WR"]):
+                    mon = "the shutdown sequence left work behind: PIPE=%s SHM=%s WL=%s WR=%s" % (
+                        st["PIPE"], st["SHM"], st["WL"], st["WR"])
+                else:
+                    for k, f in st["files"].items():
+                        bad = c03.monitor_stream(f, g.emitted.get(k, []), True)
+                        if bad:
+                            mon = "after shutdown, thread %d: %s" % (k, bad)
+                            break
+            if d["first_diff"]:
+                disagree += 1
+            if mon:
+                monfail += 1
+            if (d["first_diff"] or mon) and reported < 3:
+                reported += 1
+                fd = d["first_diff"]
+                C.violation(ctx, "h1case%d" % ci, {
+                    "kind": "property-violated-on-implementation" if mon else "model-code-disagreement", "what": mon,
+                    "config": {"threads": g.nt, "writers": g.nw, "maxsize": g.maxsize, "bufsize": g.maxsize + 16,
+                               "stop": g.how},
+                    "harness_script": [o[0] for o in g.ops][: (fd[0] + 1 if fd else len(g.ops))],
+                    "model_script": [m for o in g.ops[: (fd[0] + 1 if fd else len(g.ops))] for m in o[1]],
+                    "first_difference_at_op": fd[0] if fd else None,
+                    "impl_state": fd[1] if fd else None, "model_state": fd[2] if fd else None,
+                    "theorem": "c04_crash_prefix / c04_recorder_loop_exits" if mon else
+                               "correspondence Shmem.step (kill, rFlush, rRemaining) vs libmcount + stand-in recorder",
+                }, no_failing_input=not mon)
 
-        def expect(m):
-            mm = re.match(r"flushed recs=\[(.*?)\]", m)
-            if not mm:
-                return None
-            want = mm.group(1).split()
-            return want
-        want = expect(mfix)
-        # records flushed by the handler are the tail of what the buffer holds (earlier flushes come first)
-        ok_fixed = (-o["rc"] == sig) and want is not None and (impl_recs[len(impl_recs) - len(want):] == want
-                                                                if want else True)
-        if ok_fixed:
-            segv["agree_fixed"] += 1
-        elif mpre.startswith("wild") and -o["rc"] != sig:
-            segv["agree_prefix_F11"] += 1
-            f11_hits.append({"depth": n, "max_stack": maxstack, "raised": sig, "terminated_by": -o["rc"],
-                             "model_prefix": mpre, "model_fixed": mfix})
-        else:
-            segv["other"] += 1
-            C.violation(ctx, "segv-%d-%d" % (n, sig), {
-                "kind": "model-code-disagreement", "depth": n, "signal": sig, "impl": impl, "model_fixed": mfix,
-                "model_prefix": mpre, "stderr": o["stderr"], "theorem": "c04_segv_includes_open_calls"}, True)
-    if f11_hits:
-        what = ("F11: segv_handler / mcount_rstack_restore index the shadow stack with idx-1 although idx exceeds "
-                "--max-stack (-finstrument-functions): the crash handler itself crashes (%d of %d runs: e.g. "
-                "SIGABRT at depth %d with --max-stack %d ends with signal %d); implementation matches the "
-                "pre-fix model (c04_prefix_segv_wild_witness)" % (
-                    len(f11_hits), segv["runs"], f11_hits[0]["depth"], maxstack, f11_hits[0]["terminated_by"]))
-        if "F11" in known:
-            C.known(ctx, known["F11"], what)
-        else:
-            C.violation(ctx, "F11-segv-beyond-max-stack", {
-                "kind": "property-violated-on-implementation", "finding": "F11", "what": what, "runs": f11_hits[:4],
-                "reproduce": "UFTRACE_MAX_STACK=8: 12 x __cyg_profile_func_enter, then raise(SIGABRT) "
-                             "(harness/h1_c03_driver.c op `SEGVSELF 12 6`); e2e: gcc -finstrument-functions program "
-                             "recursing 20 deep then abort() under `uftrace record --max-stack 8` is reported as "
-                             "killed by signal 11, no crash report, open calls not flushed",
-                "theorem": "c04_segv_includes_open_calls (fixed) / c04_prefix_segv_wild_witness (as is)"})
+        # ---- kill at every instruction of one record_trace_data() call (ptrace single-step) ----------------
+        nstep = 10 if ctx.tier == "quick" else 200
+        scases = []
+        for i in range(nstep):
+            rng = ctx.rng
+            pl = [[0], [0, 8, 16], [0, 24], [8, 16, 32]][i % 4]
+            scases.append(StepGen(rng, 1, rng.randint(1, 2), rng.choice([48, 64, 96, 160]), rng.randint(3, 30),
+                                  rng.choice([0, 0, 0.2]), pl))
+        sres = c03.run_h1_cases(ctx, exe, scases, model_name="C04", extra_env={"H1C03_INLINE": "1"})
+        ctx.notes.append("t(+single-step)=%.1fs" % ctx.elapsed())
+        steps = {"cases": len(sres), "instructions": 0, "views": 0, "agree_fixed": 0, "agree_prefix_F12": 0, "other": 0}
+        f12_hits = []
+        for ci, d in enumerate(sres):
+            g = d["gen"]
+            last = d["impl"][-1] if d["impl"] else ""
+            m = re.search(r"instructions=(\d+)", last)
+            steps["instructions"] += int(m.group(1)) if m else 0
+            iv = views_of(last)
+            steps["views"] += len(iv)
+            fd = d["first_diff"]
+            if not fd:
+                steps["agree_fixed"] += 1
+                bad = view_problem(iv)
+                if bad:
+                    C.violation(ctx, "step%d" % ci, {"kind": "property-violated-on-implementation", "what": bad,
+                                                     "harness_script": [o[0] for o in g.ops], "views": iv,
+                                                     "theorem": "c04_crash_whole_records"})
+                continue
+            # does the implementation match the model of the code before the repair (two size updates)?
+            pre = [ml if not ml.startswith("RESET") else " ".join(ml.split()[:3] + ["0"]) for o in g.ops for ml in o[1]]
+            mpre = c03.run_model("C04", pre)
+            only_last = fd[0] == len(g.ops) - 1 and len(d["impl"]) == len(g.ops)
+            if only_last and c03.norm_state(mpre[-1]) == c03.norm_state(last):
+                steps["agree_prefix_F12"] += 1
+                f12_hits.append({"harness_script": [o[0] for o in g.ops], "views_impl": iv,
+                                 "views_model_fixed": views_of(d["model"][-1]), "what": view_problem(iv)})
+            else:
+                steps["other"] += 1
+                C.violation(ctx, "step%d" % ci, {
+                    "kind": "model-code-disagreement", "first_difference_at_op": fd[0], "impl_state": fd[1],
+                    "model_state": fd[2], "model_prefix_state": c03.norm_state(mpre[fd[0]]) if fd[0] < len(mpre) else None,
+                    "harness_script": [o[0] for o in g.ops][:fd[0] + 1],
+                    "theorem": "correspondence of the producer micro-steps (Shmem.pWrite/pBump/pEnd/pPick/pStart/pMark)"},
+                    True)
+        if f12_hits:
+            what = ("F12: record_ret_stack advances `size` past the header of a record with argument payload before "
+                    "the payload is stored; killed between the two stores the thread leaves a header without payload "
+                    "and flush_shmem_list copies it into <tid>.dat (%d of %d single-stepped calls; %s); implementation "
+                    "matches the pre-fix model (c04_prefix_torn_record_witness)" % (
+                        len(f12_hits), len(sres), f12_hits[0]["what"]))
+            if "F12" in known:
+                C.known(ctx, known["F12"], what)
+            else:
+                C.violation(ctx, "F12-torn-payload-record", {
+                    "kind": "property-violated-on-implementation", "finding": "F12", "what": what,
+                    "runs": f12_hits[:3], "env": "H1C03_INLINE=1 UFTRACE_BUFFER=<maxsize+16>",
+                    "theorem": "c04_crash_whole_records (fixed) / c04_prefix_torn_record_witness (as is)"})
+
+        # ---- the crash handler: SIGABRT at a call depth below / at / beyond --max-stack --------------------
+        segv = {"runs": 0, "agree_fixed": 0, "agree_prefix_F11": 0, "other": 0}
+        maxstack = 8
+        depths = [1, 3, 7, 8, 9, 12, 20] if ctx.tier == "quick" else list(range(1, 26))
+        f11_hits = []
+        for j, (n, sig) in enumerate([(n, s) for n in depths for s in (6, 11)]):
+            o = run_segv(ctx, exe, j, n, sig, maxstack)
+            segv["runs"] += 1
+            # mcount_check_rstack flushed the open frames when the depth first reached max-stack
+            written = [n >= maxstack] * min(n, maxstack)
+            mfix = model_segv(True, maxstack, n, written)
+            mpre = model_segv(False, maxstack, n, written)
+            impl_recs = o["recs"] or []
+            impl = "sig=%d recs=[%s]" % (-o["rc"], " ".join(impl_recs))
+
+            def expect(m):
+                mm = re.match(r"flushed recs=\[(.*?)\]", m)
+                if not mm:
+                    return None
+                want = mm.group(1).split()
+                return want
+            want = expect(mfix)
+            # records flushed by the handler are the tail of what the buffer holds (earlier flushes come first)
+            ok_fixed = (-o["rc"] == sig) and want is not None and (impl_recs[len(impl_recs) - len(want):] == want
+                                                                    if want else True)
+            if ok_fixed:
+                segv["agree_fixed"] += 1
+            elif mpre.startswith("wild") and -o["rc"] != sig:
+                segv["agree_prefix_F11"] += 1
+                f11_hits.append({"depth": n, "max_stack": maxstack, "raised": sig, "terminated_by": -o["rc"],
+                                 "model_prefix": mpre, "model_fixed": mfix})
+            else:
+                segv["other"] += 1
+                C.violation(ctx, "segv-%d-%d" % (n, sig), {
+                    "kind": "model-code-disagreement", "depth": n, "signal": sig, "impl": impl, "model_fixed": mfix,
+                    "model_prefix": mpre, "stderr": o["stderr"], "theorem": "c04_segv_includes_open_calls"}, True)
+        if f11_hits:
+            what = ("F11: segv_handler / mcount_rstack_restore index the shadow stack with idx-1 although idx exceeds "
+                    "--max-stack (-finstrument-functions): the crash handler itself crashes (%d of %d runs: e.g. "
+                    "SIGABRT at depth %d with --max-stack %d ends with signal %d); implementation matches the "
+                    "pre-fix model (c04_prefix_segv_wild_witness)" % (
+                        len(f11_hits), segv["runs"], f11_hits[0]["depth"], maxstack, f11_hits[0]["terminated_by"]))
+            if "F11" in known:
+                C.known(ctx, known["F11"], what)
+            else:
+                C.violation(ctx, "F11-segv-beyond-max-stack", {
+                    "kind": "property-violated-on-implementation", "finding": "F11", "what": what, "runs": f11_hits[:4],
+                    "reproduce": "UFTRACE_MAX_STACK=8: 12 x __cyg_profile_func_enter, then raise(SIGABRT) "
+                                 "(harness/h1_c03_driver.c op `SEGVSELF 12 6`); e2e: gcc -finstrument-functions program "
+                                 "recursing 20 deep then abort() under `uftrace record --max-stack 8` is reported as "
+                                 "killed by signal 11, no crash report, open calls not flushed",
+                    "theorem": "c04_segv_includes_open_calls (fixed) / c04_prefix_segv_wild_witness (as is)"})
 
     # ---- (b) e2e ------------------------------------------------------------------------------------
     ctx.notes.append("t(+crash handler)=%.1fs" % ctx.elapsed())
@@ -772,6 +775,7 @@ def run(ctx):
                 return job, ["program did not start: " + err[-300:]], 0
             gt = c03.read_ground_truth(gtf, nt)
             bad, n = check_crash_run(ctx, d, os.path.join(d, "p"), dd, gt, nt, killer, k, mode, rc, err)
+            shm_leftovers(dd)
             shutil.rmtree(dd, ignore_errors=True)
             return job, bad, n
         with ThreadPoolExecutor(6) as ex:
@@ -899,6 +903,18 @@ def run(ctx):
         "environment of c04_recorder_loop_exits",
     ]
     return C.finish(ctx)
+
+
+def run(ctx):
+    try:
+        return _run(ctx)
+    finally:
+        # a run against a scratch tree (VERIF_REPO) must not leave its generated file in the shared Lean project
+        if os.path.realpath(C.REPO) != "/repo" and os.path.exists("/repo/cmds/record.c"):
+            try:
+                c04_taskstart.main("/repo")
+            except Exception:
+                pass
 
 
 def replay(ctx, path):
